@@ -628,6 +628,7 @@ func main() {
 		scheduleScenarios(r, t)
 	}
 	plainHistories(r)
+	plainChildHistories(r)
 	racePass(r)
 	runtime.GC()
 	r.States(nStates)
